@@ -28,7 +28,10 @@ for pid in ids:
             res[tag] = dict(applied=False, note=a.stderr[-300:]); print(tag, "patch does not apply"); subprocess.run(["git", "-C", "/repo", "checkout", "--", "."]); subprocess.run(["git","-C","/repo","reset","-q"]); continue
         t0 = time.time()
         try:
-            r = subprocess.run([os.path.join(VERIF, "check"), pid, "--tier", "quick"], capture_output=True, text=True, errors="replace", cwd=VERIF, timeout=1500)
+            # scratch evidence/replay/run dirs: a run against a mutated tree must not touch the real ones
+            env = dict(os.environ, VERIF_EVIDENCE_DIR="/tmp/seedrun/evidence", VERIF_REPLAY_DIR="/tmp/seedrun/replays", VERIF_RUNS_DIR="/tmp/seedrun/runs")
+            for dd in ("evidence", "replays", "runs"): os.makedirs("/tmp/seedrun/" + dd, exist_ok=True)
+            r = subprocess.run([os.path.join(VERIF, "check"), pid, "--tier", "quick"], capture_output=True, text=True, errors="replace", cwd=VERIF, timeout=1500, env=env)
             viol = [l for l in r.stdout.splitlines() if l.startswith("VIOLATION")]
             keys = [l.strip() for l in r.stdout.splitlines() if l.startswith("  key=")]
             res[tag] = dict(applied=True, exit=r.returncode, detected=(r.returncode == 1 and bool(viol)), n_violation_lines=len(viol), keys=keys[:6], wall_s=round(time.time() - t0, 1), tail=r.stdout.splitlines()[-1:] )
